@@ -126,3 +126,12 @@ check(
     "differential/metamorphic stateful property testing across index-threshold configurations",
     "DESIGN.md section 3 C10",
 )
+
+check(
+    "C13",
+    "exploration",
+    "Hypothesis-generated requests over an adversarial path grammar x 15 methods, sent as raw bytes to a real audited server process and to the WSGI callable; after every request: snapshot of everything around the data directory, audit-event paths of the request's lifetime, and 'refused or as the normalised target' against a twin on a copy of the data directory. Thorough adds the exhaustive product of 12 segment kinds up to length 3 for the collection-creating methods.",
+    "Trusted: Python audit events as the observer of file-system access; allow-list = interpreter/library/source trees plus exact files touched by a benign warm-up and the server's $HOME. The harness nests its scratch directory 14 levels deep so that an escape stays contained.",
+    "fuzzing over a path grammar with an audit-hook oracle, a before/after snapshot oracle and a differential (normalised twin) oracle",
+    "DESIGN.md section 3 C13",
+)
